@@ -168,6 +168,22 @@ def run_check(modname, tier="quick", seed=0, update_ledger=False, only_case=None
     else:
         outs = [_worker(j) for j in jobs]
 
+    # robustness under load: a case that crashed or left an obligation undecided (solver timeout) is re-run once, alone and with
+    # tripled solver budgets, before any verdict is derived from it (a violation is never retried away: it is kept as is)
+    def _shaky(o):
+        return bool(o["crash"]) or any(r["status"] == "unknown" and r["kind"] in ("deciding", "canary", "cover") for r in o["results"]) or \
+            any(r["kind"] == "canary" and r["status"] != "violated" for r in o["results"])
+    retried = []
+    for i, o in enumerate(outs):
+        if _shaky(o) and not any(r["status"] == "violated" and r["kind"] == "deciding" for r in o["results"]):
+            os.environ["VERIF_TIMEOUT_SCALE"] = "3"
+            try:
+                o2 = _worker((modname, o["case"], tier, seed))
+            finally:
+                os.environ.pop("VERIF_TIMEOUT_SCALE", None)
+            retried.append(o["case"])
+            if not o2["crash"] or o["crash"]:
+                outs[i] = o2
     crashes = [o for o in outs if o["crash"]]
     results = [r for o in outs for r in o["results"]]
 
@@ -306,6 +322,7 @@ def run_check(modname, tier="quick", seed=0, update_ledger=False, only_case=None
         explanation=getattr(mod, "EXPLANATION", ""),
         undecided=[dict(obligation=r["ob"], why=w) for r, w in undecided][:20],
         ledger_missing=missing[:20],
+        cases_retried_with_larger_budget=retried,
     )
     if cov["paths"] is None:
         del cov["paths"]
@@ -342,7 +359,7 @@ def run_check(modname, tier="quick", seed=0, update_ledger=False, only_case=None
         return 1
     if undecided or missing:
         for r, w in undecided[:30]:
-            print(f"UNDECIDED {r['ob']}: {w}")
+            print(f"UNDECIDED {r['ob']}: {w}" + (f" — {str(r.get('text'))[:300]}" if r.get("text") else ""))
         for n in missing[:30]:
             print(f"UNDECIDED ledger obligation no longer generated: {n}")
         return 2
